@@ -1,6 +1,7 @@
 import LassoProofs.C02
 import LassoModel.Wrap
 import LassoModel.Extracted
+import LassoProofs.Lemmas.Config
 /-
   C16 — interning a 'static string stores that very reference, without copying.
 
@@ -92,5 +93,12 @@ theorem static_routes :
       Wrap.resolveMethod Extracted.forwards route .tryGetOrInternStatic == some .tryGetOrInternStatic &&
       Wrap.resolveMethod Extracted.forwards route .getOrInternStatic == some .getOrInternStatic) = true := by
   decide
+
+/-- The code this file's theorems are about is the same under every feature configuration: the regenerated
+census of conditional compilation contains import blocks, whole serde impls, optional-dependency impls and
+module declarations only, and no gate inside any function body (`Lemmas/Config.lean`). -/
+theorem same_code_under_every_feature_configuration :
+    (Extracted.cfgGates.all fun g => g.kind != .other) = true ∧ Extracted.bodyGates.isEmpty = true :=
+  Lasso.one_code_base_for_all_configurations
 
 end Lasso.C16
